@@ -65,6 +65,9 @@ func newEventFromUntrustedJSONV3(eventJSON []byte, roomVersion IRoomVersion) (PD
 	if err := roomVersion.CheckCanonicalJSON(eventJSON); err != nil {
 		return nil, BadJSONError{err}
 	}
+	if err := checkUntrustedEventJSON(eventJSON); err != nil {
+		return nil, err
+	}
 
 	res := &eventV3{}
 	var err error
